@@ -7,7 +7,7 @@
    proof/C16_Accept.v (props/C16.v, the C16_accepted theorems); completeness is tested there on all bounded runs. *)
 From Coq Require Import List Arith Bool.
 Import ListNotations.
-From Hy Require Import gen.ParamsC16 model.C16_Reconnect lib.Harness.
+From Hy Require Import gen.ParamsC16 model.C16_Reconnect model.C16_Loss lib.Harness.
 
 Inductive obs :=
 | OInit (lz : bool) (evs : list ev) (ok : bool)
@@ -27,11 +27,18 @@ Inductive robs := RO (o : obs) | RE (who : nat) (e : ev).
    there.  Every call of the LTS ends in a [Ret] with one of the six return classes and [Close]
    always returns, so such a history matches no run of the model whatever its log: it is a
    disagreement by construction ([panicked_history_never_matches] below). *)
+(* [CRawK l ks]: a raw log together with the error VALUES the harness really saw in that history, each as
+   (site, kind id, wrapped as ClosedError?): site 0 = the value went through wrapIfConnectionClosed (it came
+   back from TCP() / UDP(), or it is the close reason quic-go gave for a connection the harness killed,
+   probed on the spot), site 1 = it ended a connection attempt (inside ConnectError).  kind id = position in
+   model/C16_Loss.v [all_kinds]; a value of none of the kinds has no id ([kobs_ok] below is false for it: the
+   enum the theorems are stated over does not cover what quic-go returns). *)
 Inductive case :=
 | CHist (l : list obs)
 | CRaw (l : list robs)
 | CClass
-| CPanic (l : list robs).
+| CPanic (l : list robs)
+| CRawK (l : list robs) (ks : list (nat * nat * bool)).
 
 (* ---- decidable equalities *)
 Definition res_eqb (a b : res) : bool :=
@@ -318,13 +325,52 @@ Definition class_ok : bool :=
   Nat.eqb c16_nonpermanent_count 1 && c16_eof_is_closed && c16_remote_close_is_closed &&
   c16_idle_timeout_is_closed.
 
+(* the classification table of the tree (gen/ParamsC16.v c16_kind_closed): every kind has a row, the
+   stream limit is the one recoverable kind *)
+Definition table_ok : bool :=
+  forallb (fun k => match wrap_kind k with
+                    | Some r => res_eqb r (if kind_eqb k KStreamLimit then RRecov else RClosed)
+                    | None => false
+                    end) all_kinds.
+
+Lemma kind_of_id_reset : kind_of_id (kind_id KReset) = Some KReset.
+Proof. reflexivity. Qed.
+
+(* a real error value, as observed: its kind is one of the enum; where it went through
+   wrapIfConnectionClosed it was classified as the table (the oracle of do_kind) says AND as the LTS
+   classifies the raw outcome the kind stands for; where it ended a connection attempt it is a
+   connection-level kind *)
+Definition kobs_ok (o : nat * nat * bool) : bool :=
+  let '(site, id, cl) := o in
+  match kind_of_id id with
+  | None => false
+  | Some k =>
+      match site with
+      | O => let seen := if cl then RClosed else RRecov in
+             match wrap_kind k with
+             | Some r => res_eqb r seen &&
+                         match raw_of k with Some w => res_eqb (classify w) seen | None => true end
+             | None => false
+             end
+      | _ => terminal k
+      end
+  end.
+
 Definition check (c : case) : bool :=
   match c with
   | CHist l => accepts l
   | CRaw l => accepts (group l)
-  | CClass => class_ok
+  | CClass => class_ok && table_ok
   | CPanic _ => false
+  | CRawK l ks => accepts (group l) && forallb kobs_ok ks
   end.
+
+(* an error value of no kind of the enum, and a stateless reset that came back unwrapped, are disagreements
+   whatever the table of the tree says *)
+Example unknown_kind_rejected : kobs_ok (0, 99, true) = false.
+Proof. reflexivity. Qed.
+Example unwrapped_reset_rejected : kobs_ok (0, kind_id KReset, false) = false.
+Proof. unfold kobs_ok. rewrite kind_of_id_reset. destruct (wrap_kind KReset) as [[| |]|]; reflexivity. Qed.
 
 Lemma panicked_history_never_matches : forall l, check (CPanic l) = false.
 Proof. reflexivity. Qed.
